@@ -91,7 +91,7 @@ CLAIMED = {
                   'Floyd–Warshall oracle (fw_correct, tabulated form proved equal) validating the path astar returned + '
                   'differential correspondence run',
         text='Theorems evaluated_eq_prefix / verdict_true_iff / verdict_first_nontrue / nothing_else_evaluated / errors_iff / '
-             'spErr_iff / accepted_path_minimal / model_sp_spec: along the path returned by get_shortest_path exactly the prefix '
+             'spErr_iff / accepted_path_minimal / accepted_paths_same_weight (ties: two accepted paths have equal weight) / model_sp_spec: along the path returned by get_shortest_path exactly the prefix '
              'up to and including the first non-true causaloid is evaluated, in order, the result is the conjunction, nothing '
              'off the path is evaluated; an error without evaluation iff empty graph, absent endpoint, start = stop or stop '
              'unreachable; a path accepted by the driver is a real path of minimum weight among all walks (Floyd–Warshall, '
@@ -145,7 +145,7 @@ CLAIMED = {
              'c15_shortest_path_judged_ok: the same for the implementation model (contains_node guards mirrored) on every graph '
              'reached by any build/removal history (via the C08 refinement). petgraph astar itself is NOT modelled step by step: '
              'its result is validated per generated input by this oracle, up to ties (translation validation). Props/C15Gen.lean: '
-             'shortest_path_is_model, c15gen_guards, c15gen_shortest_path_judged_ok — the same statements about the generated '
+             'shortest_path_is_model, c15gen_guards, c15gen_shortest_path_judged_ok, c15gen_astar_choice_irrelevant (with c15_accepted_same_weight / c15_some_none_exclusive: two accepted answers agree on path-or-none and on total weight) — the same statements about the generated '
              'shortest_path (guards, astar as an external parameter, path copy) on every graph reached by the generated mutators (built and audited by the check of C08).',
         note='Trusted: Lean kernel; the oracle statements; rs2lean_ugraphfns.py and the petgraph primitives it writes against; the correspondence run (graphs from C08-style histories incl. cycles, zero '
              'weights, ties, self-loops, removals; all ordered pairs incl. absent end points); petgraph astar not proved; path sums < 2^63.',
